@@ -31,6 +31,7 @@ def to_real(v):
 
 def to_int(v):
     if isinstance(v, VInt): return v.t
+    if isinstance(v, VAbs) and hasattr(v, "as_int"): return v.as_int
     if isinstance(v, VOpt): return to_int(v.inner)     # callers have established / obliged non-None
     if isinstance(v, VBool): return z3.If(v.t, z3.IntVal(1), z3.IntVal(0))
     raise Unsupported(f"to_int({v!r})")
@@ -253,6 +254,12 @@ class ExprMixin:
             return [(st, VFunc(f"str.{attr}", strfn))]
         if isinstance(base, VStr) and attr in ("startswith", "endswith", "format", "split", "join", "lower", "upper"):
             raise Unsupported(f"str.{attr} on a symbolic string", node)
+        if isinstance(base, VClass) and "::" in base.name and attr != "__name__":
+            r = self.find_method(base.name, attr)
+            if r is not None and r[0] == "repo":
+                fi = r[1]
+                return [(st, VFunc(f"{base.name}.{attr}", lambda a, k, s, e, fi=fi: e.inline(fi, None, a, k, s)
+                                   if not e.spec_depth else e.pure_call(fi, None, a, k, s)))]
         if isinstance(base, VClass) and attr == "__name__":
             return [(st, VStr(base.name))]
         raise Unsupported(f"attribute .{attr} on {base!r}", node)
@@ -555,6 +562,14 @@ class ExprMixin:
         b = self.deref(base, st)
         if isinstance(b, VOpt):
             b = self.unopt(b, st, node, "subscripted value")
+        if isinstance(b, VVal):
+            from .absobj import Comp
+            return [(st, VVal(Comp(b.t, to_int(self.deref(idx, st)))))]
+        if isinstance(b, HObj) and isinstance(base, VRef):
+            bm = self.bound_method(base, b, "__getitem__", st)
+            if bm is None:
+                raise Unsupported(f"{b.cls} object is not subscriptable", node)
+            return self.call(bm, [idx], {}, st, node)
         if isinstance(b, VSeq):
             idx_d = self.deref(idx, st)
             if isinstance(idx_d, VSeq):   # gather: a[p]
